@@ -24,6 +24,9 @@ import Golib.FailClosed.PackA
 import Golib.FailClosed.Stream
 import Golib.FailClosed.Lazy
 import Golib.FailClosed.Reuse
+import Golib.FailClosed.ValueStream
+import Golib.Value.Facts
+import Golib.Layout.IR
 import Golib.Step.Prefix
 import Golib.Step.ValueInst
 
@@ -74,11 +77,12 @@ theorem value_decode_prefix_fails (q s : Bytes) (v : Value) (hs : s ≠ [])
     (h : Value.decode (q ++ s) = some (v, [])) : Value.decode q = none :=
   decode_prefix_fails q s v hs h
 
-/-- for all values that round-trip (C02 proves that this is every well-formed value), all
-    truncation points of the encoding -/
-theorem value_encoding_prefix_fails (v : Value) (hrt : Value.decode (encV v) = some (v, []))
+/-- for every well-formed value (`Value.WFV`: field ranges of the Go types, lengths the format can
+    represent — C02's `decode_encV` supplies the round trip, no hypothesis left), all truncation
+    points of its encoding -/
+theorem value_encoding_prefix_fails (v : Value) (hwf : Value.WFV v)
     (q s : Bytes) (hs : s ≠ []) (hq : q ++ s = encV v) : Value.decode q = none :=
-  decode_prefix_fails q s v hs (by rw [hq]; exact hrt)
+  decode_prefix_fails q s v hs (by rw [hq]; simpa using Value.decode_encV v [] hwf)
 
 /-- the instrumented decoders decode exactly what the shared models decode: allocation order
     and availability guards are invisible in the result -/
@@ -193,8 +197,10 @@ theorem steps_stream_prefix (ss : List Step.Item) (h : ∀ s ∈ ss, s.ok Step.v
       ∃ k, k < ss.length ∧ Step.readAll Step.stepTable q = some ((ss.take k).map Step.Item.expected) :=
   Step.stream_prefix Step.valueRT Step.stepTable (by decide) ss h q a ha hq
 
-/-- reading a step allocates (through `ReadBytes`) exactly what it consumes, never more than the input -/
-theorem alloc_bounded_steps (bs : Bytes) :
+/-- reading a step allocates through `ReadBytes` exactly what it consumes, never more than the input -/
+/- `_partial`: the bound counts what `ReadBytes` allocates; the int array a step may carry
+   (`ReadIntArray`, a guarded `make` of 4·n bytes) is bounded by `alloc_bounded_programs`' array reader, not here -/
+theorem alloc_bounded_steps_partial (bs : Bytes) :
     A.cost (A.ofP (Step.readOneP Step.stepTable)) bs ≤ 1 * bs.length :=
   (paid_ofP0 (c := 1) _ (Nat.le_refl 1)).bounded bs
 
@@ -227,6 +233,18 @@ theorem stream_cut_fails (p : P α) (c : Conn) (s : Bytes) (v : α) (hs : s ≠ 
 /-- … and the complete encoding decodes over every fragmentation -/
 theorem stream_complete_decodes (p : P α) (c : Conn) (v : α) (h : P.run p c.bytes = some (v, [])) :
     ∃ c', runC p c = some (v, c') ∧ c'.bytes = [] := stream_complete p c v h
+
+/-- `value.ReadValue` on a connection (`CheckCount` is a no-op there, so the unguarded decoder runs;
+    it is a program of the decoder monad): over any fragmentation it does what `Value.decV` does on
+    the concatenated bytes, and a connection that ends mid-value makes it fail -/
+theorem stream_value (f : Nat) (c : Conn) :
+    match runC (valueP f) c with
+    | some (v, c') => decV f c.bytes = some (v, c'.bytes)
+    | none => decV f c.bytes = none := value_stream f c
+
+theorem stream_value_cut_fails (f : Nat) (c : Conn) (s : Bytes) (v : Value) (hs : s ≠ [])
+    (h : decV f (c.bytes ++ s) = some (v, [])) : runC (valueP f) c = none :=
+  value_stream_cut_fails f c s v hs h
 
 /-- instances: programs of primitive reads and registered steps over a connection -/
 theorem stream_program_cut_fails (ops : List Op) (c : Conn) (s : Bytes) (h : ∀ op ∈ ops, WFOp op)
@@ -304,6 +322,32 @@ theorem reuse_after_any_history {S O : Type} (rd : Reuse.Reader S) (obs : S → 
       obs (rd (Reuse.readAll rd fresh hist) good).1 = obs (rd fresh good).1 :=
   Reuse.reuse_history rd obs h fresh hist good hgood
 
+/-- instance: every reader seen through the fields its layout assigns (`Layout.L.read`'s result) resets,
+    whatever a failed `Read` left behind (`junk`).  This is what the theorem side says about reuse for
+    the transcribed readers; that the Go objects hold nothing else that survives a `Read` (unassigned
+    fields, tables that are `Put` into) rests on tie B (reuse sweep) and tie A (`additive_readers_exact`) -/
+theorem reuse_layout_readers (l : Layout.L) (pfx : String) (e : Layout.Env)
+    (junk : Option Layout.Out → Bytes → Option Layout.Out) (hist : List Bytes) (good : Bytes)
+    (hgood : (l.read pfx e good).isSome = true) :
+    let rd := Reuse.fieldReader (fun bs => (l.read pfx e bs).map (·.1)) junk
+    (rd (Reuse.readAll rd none hist) good).2 = true ∧
+      (rd (Reuse.readAll rd none hist) good).1 = (rd none good).1 := by
+  intro rd
+  have h := Reuse.reuse_history rd id (Reuse.fieldReader_resets _ junk) none hist good (by
+    show (Reuse.fieldReader _ junk none good).2 = true
+    unfold Reuse.fieldReader
+    cases hr : l.read pfx e good with
+    | none => rw [hr] at hgood; simp at hgood
+    | some o => simp [hr])
+  exact h
+
+/-- a non-caching two-phase decoder (`GetRecords`) whose kept bytes do not decode, empty or not:
+    every access of every history fails -/
+theorem lazy_stateless_access_fails {T C : Type} (S : Lazy.Spec T C) (hc : S.cache = false)
+    (ops : List Lazy.Op) (s : Lazy.Obj T) (hbad : (S.parse s.raw).2 = false) :
+    ∀ i : Nat, ops[i]? = some Lazy.Op.access → (Lazy.runOps S s ops)[i]? = some Lazy.Obs.failed :=
+  Lazy.stateless_access_fails S hc ops s hbad
+
 /-- the readers that `Put` into the table the object already holds are not of that kind (they are
     listed exactly by `C04Gen.additive_readers_exact`) -/
 theorem reuse_additive_exception : ¬ Reuse.Resets Reuse.putReader id := Reuse.additive_not_reset
@@ -356,6 +400,12 @@ theorem finding_D02_array :
   rw [d02_textArray_unguarded]; decide
 
 /-! ## non-vacuity -/
+
+/-- a value over a connection in three fragments; cut after two of them it fails -/
+example : (runC (valueP 5) [[70, 1], [1, 21, 0], [0, 0, 9]]).isSome = true := by decide +kernel
+example : (runC (valueP 5) [[70, 1], [1, 21, 0]]).isNone = true := by decide +kernel
+example : Value.WFV (.list [.int 5, .text [104, 105]]) := by decide
+
 
 /-- a long read from a connection that delivers 3 + 1 + 4 bytes, and from one cut after 5 bytes -/
 example : runC (rdI 8) [[0, 0, 0], [0], [0, 0, 1, 2]] = some (258, []) := by decide +kernel
